@@ -28,6 +28,10 @@ from mdmc.refs.engine_model import R, Trace, ref_scan
 #  dT  type "", value = the whole text T: restates the root when it sits at offset 0, otherwise decodes to the
 #      input again (the natural "always decodable again" case: searching its value yields the same hits)
 KINDS = ("p", "q", "u", "d1", "dE", "dL", "k", "dk", "dT", "kk")
+#  kinds that only make sense over the high-byte text (TEXT_HI): uL Latin-1 letters in the other case (same length, NOT equal under
+#  ASCII case folding -> decoded), dS the covered text with the bytes that are invalid UTF-8 stripped, dB the covered text behind a UTF-8 BOM
+KINDS_HI = ("p", "u", "uL", "dS", "dB", "d1")
+TEXT_HI = b"\xe9b\xff\xc9d\xfe"
 MODES = ("r0", "rp", "rd", "rk")
 #  r0 nothing is found in decoded values           rp one plain hit on the first byte of any decoded value
 #  rd every decoded value decodes again (value + b"!"), so only the depth budget stops the recursion
@@ -62,6 +66,14 @@ def spec(T: bytes, a: int, b: int, kind: str):
         return ("k", b"WXYZ", "dk", a, b, [("kc", b"X", "", 1, 2, [])])
     if kind == "dT":
         return ("", T, "dT", a, b, [])
+    if kind == "uL":
+        v = bytes(c - 0x20 if 0xE0 <= c <= 0xFE and c != 0xF7 else (c + 0x20 if 0xC0 <= c <= 0xDE and c != 0xD7 else c) for c in cov)
+        return ("l", v, "" if v != cov else "same", a, b, [])
+    if kind == "dS":
+        v = bytes(c for c in cov if c < 0x80) or b"-"
+        return ("s", v, "", a, b, [])
+    if kind == "dB":
+        return ("b", b"\xef\xbb\xbf" + cov, "bom", a, b, [])
     if kind == "kk":
         return ("k", cov, "", a, b, [("kc", b"qr", "", 0, 1, [("kg", b"g", "", 0, 1, [])])])
     raise ValueError(kind)
@@ -120,6 +132,10 @@ def execute(T: bytes, hits, depth: int, mode: str = "r0", grouped: bool = False)
 
 
 # enumeration ----------------------------------------------------------------------------------------
+
+
+def text_for(n: int, hi: bool = False) -> bytes:
+    return TEXT_HI[:n] if hi else text(n)
 
 
 def candidates(n: int, kinds=KINDS):
